@@ -57,18 +57,21 @@ def linen_case(c, pid):
     flax.config.update('flax_fix_rng_separator', False)
 
 
-def term_table(seeds, ns, maxc=24, maxj=8):
+def term_table(seeds, ns, maxc=24, maxj=16):
+  """key data -> term, for every key a history of at most maxc plain draws and maxj draws per lane inside a split can hand out"""
   tab = {}
+  js = jnp.arange(maxj, dtype=jnp.uint32)
+  inner = jax.vmap(lambda k: jax.vmap(lambda j: jax.random.key_data(jax.random.fold_in(k, j)))(js))
   for name, s in seeds.items():
     k = jax.random.key(s)
     for c in range(maxc):
       kc = jax.random.fold_in(k, c)
       tab[key_data(kc)] = ['fold', ['seed', s], c]
       for n in ns:
-        sp = jax.random.split(kc, n)
+        data = np.asarray(inner(jax.random.split(kc, n)))        # (n, maxj, 2)
         for i in range(n):
           for j in range(maxj):
-            tab[key_data(jax.random.fold_in(sp[i], j))] = ['fold', ['split', ['fold', ['seed', s], c], n, i], j]
+            tab[tuple(int(a) for a in data[i, j].reshape(-1))] = ['fold', ['split', ['fold', ['seed', s], c], n, i], j]
   return tab
 
 
